@@ -5,8 +5,9 @@
      conditional_effects_remover.py   ConditionalEffectsRemover._create_unconditional_actions (InstantaneousAction
                                       branch) — called unchanged by MAConditionalEffectsRemover._compile for every
                                       conditional action of every agent;
-     utils.py                         check_and_simplify_preconditions (external: the Simplifier is a Section variable of
-                                      the theorems, see Proofs/Variants_proofs.v);
+     utils.py                         check_and_simplify_preconditions (the Simplifier is NOT modelled: the step reads
+                                      preconditions only through all_hold — step_pre_ext — and the harness compares the
+                                      simplified preconditions with the model's on every state);
      disjunctive_conditions_remover.py DisjunctiveConditionsRemover._create_non_disjunctive_actions /
                                       _create_new_action_with_given_precond / the fake-goal achievers of
                                       _goals_without_disjunctions_adding_new_elements — called by
@@ -142,9 +143,13 @@ Section Dnf.
   Definition dnf_variant (a : action) (d : list expr) : action :=
     {| a_params := a_params a; a_pre := d; a_effs := flat_map split_effect (a_effs a) |}.
 
-  (* one variant per disjunct of the precondition; `if len(new_action.effects) == 0: return None` *)
+  (* `except UPConflictingEffectsException: return None` (a split effect whose condition simplified to TRUE is
+     unconditional and may conflict with another effect) and `if len(new_action.effects) == 0: return None` *)
+  Definition dnf_kept (v : action) : bool := add_effs_ok [] [] (a_effs v) && negb (is_nil (a_effs v)).
+
+  (* one variant per disjunct of the precondition *)
   Definition dnf_variants (a : action) (pre_dnf : list (list expr)) : list action :=
-    filter (fun v => negb (is_nil (a_effs v))) (map (dnf_variant a) pre_dnf).
+    filter dnf_kept (map (dnf_variant a) pre_dnf).
 End Dnf.
 
 (* ---- goals.  fake_action.add_effect(fake_fluent, True); one achiever per disjunct of the goal's DNF *)
